@@ -113,7 +113,6 @@ class FdClient(client.Client):
     def __init__(self, *a, **kw):
         client.Client.__init__(self, *a, **kw)
         self.rx_off = 0          # stream offset of the next byte to be received
-        self.consumed = 0        # stream offset of the next message to be framed
         self.fd_arrivals = []    # (start offset, end offset, number of descriptors)
         self.all_fds = []
         self.anomalies = []      # (class, text)
@@ -131,11 +130,10 @@ class FdClient(client.Client):
             self.rx_off += got
 
     def _try_pop(self):
-        start = self.consumed
+        start = self.rx_off - len(self.buf)     # stream offset of the first unframed byte
         rec = client.Client._try_pop(self)
         if rec is None:
             return None
-        self.consumed += len(rec.raw)
         announced = rec.msg.known().get(9, 0)
         if announced != len(rec.fds):
             self.anomalies.append(("header-count-mismatch",
